@@ -53,7 +53,9 @@ Fin(n) == [k |-> "fin", n |-> n]
 GoodT(t) == t.k \in {"fin", "negzero", "huge"}       \* finite and non-negative
 S3(t) == IF t.k = "fin" THEN t.n ELSE IF t.k = "negzero" THEN 0
          ELSE IF t.k = "huge" THEN HUGE3 ELSE None
-TickOfUnits(n) == IF cfg.mode = "third" THEN (n + 1) \div 3 ELSE n
+(* mode "third": unit = 1/3 tick (never a tie); "tick": unit = U ticks; "d32": unit = 1/32 s = 2812.5 ticks, exactly   *)
+(* representable in binary floating point, so odd n are exact ties and "rounded to the nearest tick" means half up *)
+TickOfUnits(n) == IF cfg.mode = "third" THEN (n + 1) \div 3 ELSE IF cfg.mode = "d32" THEN (n * 5625 + 1) \div 2 ELSE n
 Tk(t) == IF t.k = "huge" THEN SAT ELSE IF S3(t) = None THEN None ELSE TickOfUnits(S3(t))
 UnitsPerTick == IF cfg.mode = "third" THEN 3 ELSE 1
 
@@ -408,7 +410,7 @@ StartOf(T) ==
 Pres(T, i) == Sat(Sat(StartOf(T) + SumSeq([k \in 1..(i-1) |-> SDur(T, k)])) + SCts(T, i))
 
 C09Sigs(F) ==
-    IF Len(F.tracks) < 2 \/ v = << >> \/ a = << >> THEN {}
+    IF Len(F.tracks) < 2 \/ v = << >> \/ a = << >> \/ cfg.mode = "d32" THEN {}
     ELSE LET TV == F.tracks[1]  TA == F.tracks[2]
              n == IF Len(a) < NSamp(TA) THEN Len(a) ELSE NSamp(TA)
              ok == NSamp(TV) >= 1 /\ "d" \in DOMAIN TV.s[1] /\ \A j \in 1..n : "d" \in DOMAIN TA.s[j]
@@ -435,7 +437,7 @@ C06Stats(st, written) ==
          (IF st.v # Len(v) THEN {Sig("C06", "StatsFrames", "video", "count")} ELSE {})
     \cup (IF st.a # Len(a) THEN {Sig("C06", "StatsFrames", "audio", "count")} ELSE {})
     \cup (IF st.bytes # written THEN {Sig("C06", "StatsBytes", "finish", "bytes")} ELSE {})
-    \cup (IF ~AnySat /\ Abs(st.dur - UnitsPerTick * MaxEnd) > UnitsPerTick
+    \cup (IF ~AnySat /\ cfg.mode # "d32" /\ Abs(st.dur - UnitsPerTick * MaxEnd) > UnitsPerTick
           THEN {Sig("C06", "StatsDuration", "finish",
                     IF st.dur < UnitsPerTick * MaxEnd THEN "short" ELSE "long")} ELSE {})
 
